@@ -10,17 +10,7 @@ from . import common as C
 
 TECHNIQUE = "static analysis: shared-state inventory from the AST; inter-procedural aliasing-depth (ownership/effects) analysis with function summaries over the name-resolved call graph: no in-place mutator may be applied to model storage, default-argument objects, class attributes or module globals on a path from an analysis entry point"
 EXPLANATION = (
-    "R1: all process-wide mutable state (module globals and class attributes holding mutable objects, "
-    "singletons, memoised functions, mutable default arguments) is enumerated from the source and "
-    "compared with the reviewed list spec/shared_state.json. R2: an aliasing-depth analysis (0 = the "
-    "object itself is shared storage; attribute/subscript/iteration descend, copy idioms and deepcopy "
-    "ascend; function summaries for returned labels and mutated parameters; field-based for "
-    "attributes stored outside constructors) finds every in-place mutator (+= on a possibly-mutable "
-    "value, append/extend/insert/remove/pop/sort/reverse/update/setdefault, item/attribute store, del) "
-    "applied to a depth-0 value in any function reachable from the analysis entry points; the loader's "
-    "building branch, the cache insert and the AArch64 write-back flag stores are declared exceptions, "
-    "the last one conditional on a data fact re-checked on every run. R3: no attribute store on a "
-    "parser singleton outside __init__/construct_parser."
+    "R1: all process-wide mutable state (module globals and class attributes holding mutable objects, singletons, memoised functions, mutable default arguments) is enumerated from the source and compared with the reviewed list spec/shared_state.json. R2: an aliasing-depth analysis (0 = the object itself is shared storage; attribute/subscript/iteration descend, copy idioms and deepcopy ascend; function summaries for returned labels and mutated parameters, computed for arguments that are shared themselves and for fresh containers whose elements / elements' elements are shared; the return value of a function under functools.lru_cache/cache is shared storage unless it is certainly immutable; field-based for attributes stored outside constructors) finds every in-place mutator (+= on a possibly-mutable value, append/extend/insert/remove/pop/sort/reverse/update/setdefault, item/attribute store, del) applied to a depth-0 value in any function reachable from the analysis entry points; the loader's building branch, the cache insert and the AArch64 write-back flag stores are declared exceptions, the last one conditional on a data fact re-checked on every run. R3: no attribute store on a parser singleton outside __init__/construct_parser."
 )
 NOT_DECIDED = "Equality of reports across call sequences and with fresh-process runs (behavioural)."
 ASSUMPTIONS = [
